@@ -155,6 +155,14 @@ impl<R> PMTiles<R> {
     }
 }
 
+#[cfg(feature = "verif")]
+impl<R> PMTiles<R> {
+    /// Verification hook: sorted, read-only copy of the tile manager's internal maps.
+    pub fn verif_snapshot(&self) -> crate::VerifSnapshot {
+        self.tile_manager.verif_snapshot()
+    }
+}
+
 impl<R: Read + Seek> PMTiles<R> {
     /// Get data of a tile by its id.
     ///
